@@ -2,7 +2,7 @@
 from pyvc.run import Prop
 from pyvc.contracts import REGISTRY
 import contracts  # noqa
-from contracts.c05 import EVAL, CAREFUL, FMT, LEDGER, site_obligations
+from contracts.c05 import EVAL, CAREFUL, FMT, known_client_sites, site_obligations
 from native import c05 as native_c05
 
 M = 'DocumentTemplate._DocumentTemplate'
@@ -14,11 +14,7 @@ WOB = 'DocumentTemplate.DT_In.InClass.renderwob'
 
 def _natives():
     out = {}
-    remark = {}
-    for (m, f, t), (cls, rem) in LEDGER.items():
-        if cls == 'CLIENT':
-            remark['C05.site.%s.%s.%s' % (m, f, t.replace(' ', ''))] = rem
-    for oid, rem in remark.items():
+    for oid, rem in known_client_sites().items():
         out[oid] = (lambda w, _r=rem: native_c05.witness(dict(site=w.get('site', _r))))
     return out
 
@@ -43,7 +39,10 @@ PROP = Prop(
                  'rejects underscore-prefixed attribute names (library contract, assumed; exercised by the bounded native search)',
                  'the keys of RestrictionCapableEval.globals are read from the installed library on every run (its values are opaque)',
                  'hasattr on a value is an existence probe, not a data read (documented choice, DESIGN.md 4 C05)',
-                 'subscript reads other than the ones listed by text in contracts/c05.py (EXTRA_READS) are not enumerated automatically'],
+                 'the site ledger enumerates getattr / hasattr / .get( calls, .absolute_url() calls and, in the per-item helpers of dtml-in, '
+                 'subscripts local[parameter]; other subscript reads are covered by the contracts only (dtml-in element fetch, InstanceDict)',
+                 'a .get(<constant key>) is taken to be a lookup in a dictionary of compiled tag parameters; getattr(x, <protocol name>) '
+                 'for the protocol names listed in contracts/c05.py (PROTOCOL) is taken to be a probe, not client data'],
     not_decided=['the tree renderer (TreeDisplay.TreeTag.tpRenderTABLE) is covered by the site ledger only, not by symbolic execution'],
 )
 
@@ -54,9 +53,10 @@ MANIFEST = dict(
          'globals) and runs unrestricted only without guards; _.getattr / _.hasattr read (inst, name) once through the guard; '
          'InstanceDict.__getitem__ reads a client attribute once, through the guard when there is one, and refuses underscore names '
          'before touching the object; dtml-with only passes the guards on; dtml-in fetches each element through guarded_getitem(sequence, '
-         'index); method formats fetch the method through the guard. Site ledger (AST, every run): each getattr / hasattr / .get( call and '
-         'each listed subscript / method read in the rendering modules must be classified as guard wiring, own object, probe or guarded; '
-         '12 reads of client data bypass the guard (sequence-var-x / first-x / last-x, statistics, sort keys, url, tree ids / urls / sort, '
+         'index); method formats fetch the method through the guard. Site ledger (AST, every run): each getattr / hasattr / .get( call, .absolute_url() call and '
+         'per-item subscript in the rendering modules is classified by what it reads (existence probe, protocol attribute, guard wiring, own '
+         'object, constant-key parameter lookup) independently of variable and helper names; a read of an attribute / item with a computed '
+         'name straight from a value is client data read without the guard; 12 such reads bypass the guard (sequence-var-x / first-x / last-x, statistics, sort keys, url, tree ids / urls / sort, '
          '_p_oid): recorded known findings, each replayed natively with a recording guard; an unclassified new read is a violation.',
     note='Level other: the ledger is a classification by hand checked against the AST, not a data-flow proof; the wiring contracts are '
          'proofs. Trusted: pyvc, z3, CPython ast.',
